@@ -1,7 +1,8 @@
 (* C05 — Ground SMT-LIB atoms are judged exactly as Z3 judges them.
-   Only statements + `exact`; proofs are in Smt/RegexFacts.v and Smt/PyFastFacts.v.
+   Only statements + `exact`; proofs are in Smt/RegexFacts.v, Smt/PyFastFacts.v and Smt/PyFastMore.v.
    Spec model: Smt/SmtSem.v (SMT-LIB semantics, validated against the real Z3 by the check).
-   Code model: Smt/PyFast.v + Smt/PyRe.v (isla/z3_helpers.py as written).  Classes: Smt/SmtClasses.v.
+   Code model: Smt/PyFast.v + Smt/PyRe.v (isla/z3_helpers.py as written), Smt/PyClosure.v (explicit
+   translation/closure phases of evaluate_smt_formula).  Classes: Smt/SmtClasses.v, PyClosure.agree_class_fx.
 
    FULL STATEMENT (false for the pinned code, see the _refuted theorems):
      forall e b, smt_denote e = Some b -> is_valid false z3 e = Val (of_bool b)
@@ -9,11 +10,21 @@
    PROVED (_partial): the statement under the guard agree_class e = true, which excludes exactly the
    classes K_noimpl K_comp K_lit_enc K_mod_neg K_zero_div K_at_range K_substr_neg K_to_code_len
    K_to_int_signed K_loop_shape K_range_shape K_newline_subject K_tore_backslash (each refuted below by a
-   minimal witness) and X_to_int_nonnum (excluded by the property itself).
-   NOT PROVED (stated in design_notes/C05.md): the same for PyFast.evaluate_atom (translation/closure
-   phases of evaluate_smt_formula) and the fx = true variant with a sound Z3 fall-back; both are tied by the
-   correspondence only. *)
-From ISLA Require Import Str Outcome Regex RegexFacts SmtAst SmtSem PyRe PyFast SmtClasses PyFastFacts.
+   minimal witness) and X_to_int_nonnum (excluded by the property itself),
+     - for is_valid                                   (C05_fast_agrees_partial, any fx, any fall-back),
+     - for evaluate_atom = evaluate_smt_formula        (C05_evaluate_atom_agrees_partial, any fx, any fall-back),
+     - for the explicit two-phase model evaluate_clo on an atom with FREE variables + instantiation
+       (C05_evaluate_clo_agrees_partial), which is proved equal to evaluate_atom of the substituted atom
+       (C05_translate_commutes, C05_closure_value_commutes: FULL, all atoms, all outcomes incl. exceptions).
+   PROVED for the REPAIRED fall-through (fx = true, /repo beffd72) under the premise z3_sound z3 (the
+   fall-back oracle answers by the standard; = the real Z3, validated per run): the guard widens to
+   agree_class_fx (first class met in evaluation order is none or K_noimpl):
+     - C05_fast_agrees_fx_partial (is_valid), C05_evaluate_atom_agrees_fx_partial (evaluate; guard on
+       ground e = the atom the fall-back judges; C05_evaluate_fx_ground_guard_needed shows why).
+   STILL PARTIAL: the other 12 classes stay excluded (they are genuine divergences); atoms in which a wrong
+   intermediate value is computed BEFORE a missing fast path is met are excluded by the guard although
+   Z3 would still be asked; smt_denote e = None (division by zero) is not covered (K_zero_div refuted). *)
+From ISLA Require Import Str Outcome Regex RegexFacts SmtAst SmtSem PyRe PyFast SmtClasses PyFastFacts PyClosure PyFastMore.
 
 (* the regex matcher used by the spec model decides the declarative language semantics *)
 Theorem C05_regex_matcher : forall s r, rmatch r s = true <-> lang r s.
@@ -84,3 +95,78 @@ Print Assumptions C05_K_newline_all_refuted.
 Theorem C05_K_tore_backslash_refuted : diverges K_tore_backslash w_tore.
 Proof. exact K_tore_backslash_refuted. Qed.
 Print Assumptions C05_K_tore_backslash_refuted.
+
+(* ---------- proof extension: evaluate(), closure model, repaired fall-through ---------- *)
+
+(* evaluate_smt_formula (translation phase, closure phase, DomainError -> false) on the agreeing class *)
+Theorem C05_evaluate_atom_agrees_partial : forall (fx : bool) (z3_valid : expr -> tv) e b,
+  agree_class e = true -> smt_denote e = Some b -> evaluate_atom fx z3_valid e = Val (of_bool b).
+Proof. exact evaluate_atom_agrees. Qed.
+Print Assumptions C05_evaluate_atom_agrees_partial.
+
+(* FULL: translating the atom with free variables into a closure and applying it to the instantiation
+   = evaluating the instantiated atom; every outcome (value, exception, Failure -> fall-back) *)
+Theorem C05_translate_commutes : forall (fx : bool) (z3_valid : expr -> tv) e inst,
+  evaluate_clo fx z3_valid e inst = evaluate_atom fx z3_valid (subst inst e).
+Proof. exact translate_commutes. Qed.
+Print Assumptions C05_translate_commutes.
+
+Theorem C05_closure_value_commutes : forall (fx : bool) e inst t,
+  translate fx e = Val t -> run t inst = py_eval fx (subst inst e).
+Proof. exact closure_value_commutes. Qed.
+Print Assumptions C05_closure_value_commutes.
+
+Theorem C05_evaluate_clo_agrees_partial : forall (fx : bool) (z3_valid : expr -> tv) e inst b,
+  agree_class (subst inst e) = true -> smt_denote (subst inst e) = Some b ->
+  evaluate_clo fx z3_valid e inst = Val (of_bool b).
+Proof. exact evaluate_clo_agrees. Qed.
+Print Assumptions C05_evaluate_clo_agrees_partial.
+
+Example C05_evaluate_clo_nonvacuous :
+  agree_class (subst inst_42 w_open) = true /\ smt_denote (subst inst_42 w_open) = Some true /\
+  has_var w_open = true.
+Proof. exact evaluate_clo_nonvacuous. Qed.
+Print Assumptions C05_evaluate_clo_nonvacuous.
+
+(* repaired not_implemented_failure (fx = true): operators without fast path go to Z3.
+   z3_sound is an explicit premise: the fall-back returns the SMT-LIB verdict. *)
+Theorem C05_fast_agrees_fx_partial : forall (z3_valid : expr -> tv) e b,
+  z3_sound z3_valid -> agree_class_fx e = true -> smt_denote e = Some b ->
+  is_valid true z3_valid e = Val (of_bool b).
+Proof. exact fast_agrees_fx. Qed.
+Print Assumptions C05_fast_agrees_fx_partial.
+
+Theorem C05_evaluate_atom_agrees_fx_partial : forall (z3_valid : expr -> tv) e b,
+  z3_sound z3_valid -> agree_class_fx (ground e) = true -> smt_denote e = Some b ->
+  evaluate_atom true z3_valid e = Val (of_bool b).
+Proof. exact evaluate_atom_agrees_fx. Qed.
+Print Assumptions C05_evaluate_atom_agrees_fx_partial.
+
+Theorem C05_evaluate_clo_agrees_fx_partial : forall (z3_valid : expr -> tv) e inst b,
+  z3_sound z3_valid -> agree_class_fx (ground (subst inst e)) = true ->
+  smt_denote (subst inst e) = Some b -> evaluate_clo true z3_valid e inst = Val (of_bool b).
+Proof. exact evaluate_clo_agrees_fx. Qed.
+Print Assumptions C05_evaluate_clo_agrees_fx_partial.
+
+(* non-vacuity: an atom of class K_noimpl (outside agree_class) satisfies the fx guard; a sound oracle exists *)
+Example C05_fast_agrees_fx_nonvacuous :
+  agree_class_fx (ground w_fx) = true /\ agree_class (ground w_fx) = false /\ smt_denote w_fx = Some true.
+Proof. exact fast_agrees_fx_nonvacuous. Qed.
+Print Assumptions C05_fast_agrees_fx_nonvacuous.
+Example C05_z3_sound_nonvacuous : z3_sound z3_std.
+Proof. exact z3_sound_nonvacuous. Qed.
+Print Assumptions C05_z3_sound_nonvacuous.
+
+(* the class of the substituted atom is the class of the atom or K_lit_enc ... *)
+Theorem C05_first_class_ground : forall e,
+  first_class (ground e) = first_class e \/ first_class (ground e) = K_lit_enc.
+Proof. exact first_class_ground. Qed.
+Print Assumptions C05_first_class_ground.
+(* ... and the second case matters: with x := U+20AC the atom is in the fx class, its substituted form is
+   not, and evaluate() raises TypeError from the fall-back whatever Z3 answers (reproduced on /repo) *)
+Theorem C05_evaluate_fx_ground_guard_needed :
+  agree_class_fx w_fx_lit = true /\ first_class (ground w_fx_lit) = K_lit_enc /\
+  smt_denote w_fx_lit = Some true /\
+  forall z3_valid, evaluate_atom true z3_valid w_fx_lit = Exn TypeErr.
+Proof. exact evaluate_fx_ground_guard_needed. Qed.
+Print Assumptions C05_evaluate_fx_ground_guard_needed.
